@@ -115,6 +115,8 @@ pub fn run(rep: &mut Report) {
                     continue;
                 }
                 let (a, q) = setsketch_a_q(b, m, n as f64, 1e-6);
+                // the documented choice is a lower bound: half of the cells use a non-integer rate above it
+                let a = if (hsel >> 12) % 2 == 0 { a + 0.7 } else { a };
                 if u16reg && q + 1 > 65535 {
                     continue;
                 }
